@@ -13,7 +13,7 @@ import (
 )
 
 // callees assumed to have no effect on modelled memory / ghost state and not to panic
-var pureCallee = regexp.MustCompile(`(\.String$|\.Error$|\.Logger$|\.EventManager$|\.GoString$|POSHooks\.|\.Codespace$|\.WithEventManager$|\.ConsensusParams$|\.PubKey$|CheckConsensusPubKey$|\.Events$)|^(fmt\.|errors\.|strings\.|strconv\.|\*?types\.(New)?Err|types\.newError|\*?types\.sdkError\.|types\.Err[A-Z]|x/[a-z]+/types\.Err[A-Z]|x/[a-z]+/types\.Codespace|\*?github\.com/tendermint/tendermint/libs/log\.|\*?github\.com/tendermint/tendermint/libs/common\.|\*?github\.com/pkg/errors\.|types\.NewEvent|types\.NewAttribute|\*?types\.EventManager\.|types\.Events\.|types\.Event\.|log\.|os\.Exit|time\.Now|\*?bytes\.Buffer\.)`)
+var pureCallee = regexp.MustCompile(`(\.String$|\.Error$|\.Logger$|\.EventManager$|\.GoString$|POSHooks\.|\.Codespace$|\.WithEventManager$|\.ConsensusParams$|\.PubKey$|CheckConsensusPubKey$|^encoding/hex\.|rpc/client\.NewHTTP$|node\.Node\.Config$|\.Events$)|^(fmt\.|errors\.|strings\.|strconv\.|\*?types\.(New)?Err|types\.newError|\*?types\.sdkError\.|types\.Err[A-Z]|x/[a-z]+/types\.Err[A-Z]|x/[a-z]+/types\.Codespace|\*?github\.com/tendermint/tendermint/libs/log\.|\*?github\.com/tendermint/tendermint/libs/common\.|\*?github\.com/pkg/errors\.|types\.NewEvent|types\.NewAttribute|\*?types\.EventManager\.|types\.Events\.|types\.Event\.|log\.|os\.Exit|time\.Now|\*?bytes\.Buffer\.)`)
 
 func (fr *frame) calleeKey(c *ssa.CallCommon) (string, *ssa.Function) {
 	if c.IsInvoke() {
@@ -45,6 +45,17 @@ func (fr *frame) doCall(c *ssa.CallCommon, args []SV, cur *State, instr *ssa.Cal
 		return fr.builtin(b, c, args, cur, rtyp)
 	}
 	key, callee := fr.calleeKey(c)
+	if callee == nil && !c.IsInvoke() {
+		// call through a package-level alias variable (var X = pkg.F)
+		if u, ok := c.Value.(*ssa.UnOp); ok {
+			if g, ok := u.X.(*ssa.Global); ok {
+				if f := vc.eng.funcAlias[g]; f != nil {
+					callee, key = f, funcKey(f)
+					vc.assumes["package-level function alias never reassigned: "+g.Name()] = true
+				}
+			}
+		}
+	}
 	// devirtualise: the receiver was boxed from a known concrete type in this very function
 	if c.IsInvoke() && len(args) > 0 && args[0].dyn != nil && args[0].dyn.typ != nil {
 		if m := vc.eng.prog.LookupMethod(args[0].dyn.typ, c.Method.Pkg(), c.Method.Name()); m != nil && m.Synthetic == "" {
